@@ -11,6 +11,8 @@ PNAME = {
     "replace:closed": "PReplClosed", "replace:log-renamed": "PReplLogRenamed", "replace:index-renamed": "PReplIdxRenamed",
     "delete:log-removed": "PDelLogRemoved", "clean:deleting-segment": "PCleanDeleting", "compact:copy-written": "PCompactCopy",
     "clean:cleaned": "PCleanCleaned",
+    "open:orphan-index-removed": "POrphanRemoved", "rebuild:index-removed": "PRebuildRemoved", "rebuild:index-created": "PRebuildCreated",
+    "rebuild:entry-written": "PRebuildEntry", "open:epochs-trimmed": "PEpochsTrimmed",
 }
 HW_FILE = "replication-offset-checkpoint"
 EPOCH_FILE = "leader-epoch-checkpoint"
@@ -72,6 +74,8 @@ def c_intent(i):
         return "DTrunc %s" % cz(i["o"])
     if k in ("clean", "cleanc"):
         return "DClean %s" % cz(i["ttl"])
+    if k == "reopen":
+        return "DReopen"
     raise Untranslatable("intent " + k)
 
 
@@ -89,6 +93,19 @@ def c_dlop(o):
             c_intent(o["intent"]), o["k"], PNAME[o["point"].split("~")[0]], t["k"], z, c_list(fobs), cz(hw), c_eps(ep),
             c_list([cz(x) for x in (o.get("offs") or [])]), cz(o["newest"]), cz(o["oldest"]), cz(o["hw"]),
             c_eps(o.get("cache") or []))
+    if k == "crash" and o.get("rec"):
+        lv1 = "None"
+        if o["k"] > 0:
+            fobs, hw, ep = parse_disk(o["disk"])
+            lv1 = "(Some (%s, %s, %s))" % (c_list(fobs), cz(hw), c_eps(ep))
+        recs = []
+        for lv in o["rec"]:
+            fobs, hw, ep = parse_disk(lv["disk"])
+            recs.append("(%d%%nat, %s, (%s, %s, %s))" % (lv["j"], PNAME[lv["point"]], c_list(fobs), cz(hw), c_eps(ep)))
+        return "XCrashR (%s) %d %s %s %s %s %s %s %s %s" % (
+            c_intent(o["intent"]), o["k"], PNAME[o["point"]] if o["k"] > 0 else "PEpochsTrimmed", lv1, c_list(recs),
+            c_list([cz(x) for x in (o.get("offs") or [])]), cz(o["newest"]), cz(o["oldest"]), cz(o["hw"]),
+            c_eps(o.get("cache") or []))
     if k == "crash":
         fobs, hw, ep = parse_disk(o["disk"])
         return "XCrash (%s) %d %s %s %s %s %s %s %s %s %s" % (
@@ -96,6 +113,17 @@ def c_dlop(o):
             c_list([cz(x) for x in (o.get("offs") or [])]), cz(o["newest"]), cz(o["oldest"]), cz(o["hw"]),
             c_eps(o.get("cache") or []))
     return "XOp (%s) %s" % (c_op(o), c_pts(o.get("pts")))
+
+
+def drop_cut_reopens(ops):
+    """A reopen whose commitlog.New died is recorded as the operation followed by the crash: the crash stands for both."""
+    out = []
+    for i, o in enumerate(ops):
+        nxt = ops[i + 1] if i + 1 < len(ops) else None
+        if o["op"] == "reopen" and nxt is not None and nxt["op"] == "crash" and nxt["intent"]["op"] == "reopen":
+            continue
+        out.append(o)
+    return out
 
 
 def c_dcase(c):
@@ -107,9 +135,11 @@ def c_dcase(c):
 def eval_disk_cases(ctx, cases, tag, shard=40):
     """Returns (list of (case, op index) that disagree with the model, number of shards)."""
     jobs = []
+    for c in cases:
+        c["ops"] = drop_cut_reopens(c["ops"])
     for s in range(0, len(cases), shard):
         part = cases[s:s + shard]
-        txt = "From LB Require Import Base.Prelude Log.Model Log.Retention Log.Compact Api.Range Log.Check Log.Disk Log.DiskTear Log.DiskCheck.\nOpen Scope Z_scope.\n"
+        txt = "From LB Require Import Base.Prelude Log.Model Log.Retention Log.Compact Api.Range Log.Check Log.Disk Log.DiskTear Log.DiskRecover Log.DiskCheck.\nOpen Scope Z_scope.\n"
         sentinel = "{| dc_p := mkP 100 (mkLimits 0 0 0) false; dc_create_crash := false; dc_ops := [XOp (LState 12345 0 0) []] |}"
         txt += "Definition CS : list dcase := [\n %s].\n" % ";\n ".join([c_dcase(c) for c in part] + [sentinel])
         txt += "Definition M := Eval vm_compute in dcases_mismatches CS 0.\nPrint M.\n"
